@@ -213,7 +213,7 @@ def run(ck):
     corp = chy.corpus()
     rnd = random.Random(ck.seed)
     sel = chy.pick(corp, 150 if ck.quick else 1500, ck.seed)
-    extra = ['[2H][C@](C)(O)F', 'C[C@@]([2H])(O)F', 'F[C@]([2H])(Cl)C', '[2H][C@]1(C)CCCO1', 'N[C@@]([2H])(C)C(O)=O', '[3H][C@](C)(N)C(=O)O', 'C[C@]([2H])(O)[C@@]([2H])(C)O', 'C\\1=C=C(~C/1)=C\\C', 'C\\1=C=C(~C/1)=C\\C.C/1=C=C(~C/1)=C\\C', 'C[C@H](N)O', 'N[C@@H](C)C(=O)O', 'F/C=C/F', 'C/C=C\\C', 'C[C@H](O)[C@@H](N)C', 'OC(=O)[C@H](O)[C@@H](O)C(=O)O', 'OC(=O)[C@H](O)[C@H](O)C(=O)O',
+    extra = ['c1cc2ccc3ccc4ccc5ccc6ccc1c1c2c3c4c5c61', 'OC1CCC2(CC1)CCC(O)CC2', 'CC1(C)CCC2(CC1)CCC(C)(C)CC2', 'Oc1cc2c(cc1O)c1cc(O)c(O)cc1c1cc(O)c(O)cc21', 'OC1CCC2(CC1)CCC(N)CC2', 'C1CC2(CCC1)CCC1(CC2)CCCCC1', '[2H][C@](C)(O)F', 'C[C@@]([2H])(O)F', 'F[C@]([2H])(Cl)C', '[2H][C@]1(C)CCCO1', 'N[C@@]([2H])(C)C(O)=O', '[3H][C@](C)(N)C(=O)O', 'C[C@]([2H])(O)[C@@]([2H])(C)O', 'C\\1=C=C(~C/1)=C\\C', 'C\\1=C=C(~C/1)=C\\C.C/1=C=C(~C/1)=C\\C', 'C[C@H](N)O', 'N[C@@H](C)C(=O)O', 'F/C=C/F', 'C/C=C\\C', 'C[C@H](O)[C@@H](N)C', 'OC(=O)[C@H](O)[C@@H](O)C(=O)O', 'OC(=O)[C@H](O)[C@H](O)C(=O)O',
              'C[C@H]1CC[C@@H](C)CC1', 'C1CC1', 'C12C3C1C23', 'C12C3C4C1C5C2C3C45', 'c1ccccc1', 'c1ccc2ccccc2c1', '[Na+].[Cl-]', 'CC(=O)[O-].[NH4+]', '[13CH3]C',
              'C[N+](C)(C)C', 'C[CH2]', '[O-][N+](=O)c1ccccc1', 'O=C1C=CC(=O)C=C1', 'C1CCC2(CC1)CCCCC2', 'CC(C)(C)c1ccc(O)cc1', 'FC(F)(F)C(F)(F)F',
              'C/C=C/C=C/C', 'C/C=C(/C)C(C)=O', 'CC[C@](C)(N)O', 'C[S@](=O)CC', 'c1ccc(cc1)-c1ccccc1', 'C1=CC=CC=C1', 'c1cc[nH]c1', 'c1cnc[nH]1', 'Cc1ncc[nH]1',
